@@ -591,7 +591,11 @@ def _eval_poly_in_n(e: ast.AST, k: int):
 
 def run(repo: Repo, rep):
     r9_finite_for_every_count(repo, rep)
+    from .c06 import r7b_edge_table  # rejection on a polygon boundary accepts what its membership accepts: only the lines of its own sides
+    r7b_edge_table(repo, rep)
     r8_positive_proposals(repo, rep)
+    from .c02 import r15_quota_loops  # a rejection loop that gives up returns rows that were never accepted (zeros) - points outside the set
+    r15_quota_loops(repo, rep)
     r1_facts(repo, rep)
     r5_primitive_parametrisations(repo, rep)
     r2_filtering(repo, rep)
@@ -616,6 +620,8 @@ def run(repo: Repo, rep):
     r5_point_data(repo, rep)
     from .c17 import r1_roundtrip  # samples of an evaluated domain D(t=..) lie in the set the user built only if every constructor argument (pivot, flags, sub-domains) is carried over
     r1_roundtrip(repo, rep)
+    from .c17 import r1b_motion_boundaries  # boundary samples of a moved domain are the moved samples of the inner boundary: same shift / rotation / pivot
+    r1b_motion_boundaries(repo, rep)
     from .c05 import r5_purity, r7_own_columns  # rejection steps hand the proposals to _contains: a test that shifts them in place, or reads other columns than its own, returns points outside the set
     r5_purity(repo, rep)
     r7_own_columns(repo, rep)
